@@ -11,6 +11,7 @@ package balenum
 
 import (
 	"fmt"
+	"os"
 	"runtime/debug"
 	"sort"
 	"strings"
@@ -67,6 +68,12 @@ var defaultInstanceIDs = []string{"i9", "i8", "i7", "i6", "i5", "i4", "i3", "i2"
 // objects (encoded metadata, plans) with a tiny live heap, so collect only
 // when the heap reaches limit bytes.
 func TuneGC(limit int64) {
+	if v := os.Getenv("BALENUM_GC_LIMIT"); v != "" {
+		fmt.Sscan(v, &limit)
+		if limit <= 0 {
+			return
+		}
+	}
 	debug.SetGCPercent(-1)
 	debug.SetMemoryLimit(limit)
 }
